@@ -39,6 +39,40 @@ pub fn run(tier: &str, seed: u64, dir: &str) {
             let op = h.done();
             sink.case(&op, &eval(&op), "forced-draws", true);
         }
+        // fixed plans: a mask that offers channels of one bandwidth only, then a data rate of the
+        // other bandwidth (set by the application; ADR back-off does the same): the selection must
+        // still terminate on a channel of the data rate's bandwidth
+        if is_fixed(region) {
+            let dr500 = if region == "US915" { 4u8 } else { 6 };
+            for m500 in [0x0001u16, 0x0002, 0x0080, 0x00ff, 0x0081] {
+                let mut h = Hist::new("C09", region, 20, 0, 4000 + m500 as u64, &[], None);
+                h.abp().send(1, false, &[1]);
+                // ChMaskCntl 7: all 125 kHz channels off, ChMask selects the 500 kHz channels
+                h.rx_auth("rx1", 0, 1, false, &link_adr_req(dr500, 15, m500, 7, 1), None, &[]).snap();
+                h.send(1, false, &[2]).timeout().snap();
+                h.ev("dr 0").snap();
+                for _ in 0..3 {
+                    h.send(1, false, &[3]).timeout().snap();
+                }
+                let op = h.done();
+                sink.case(&op, &eval(&op), "bandwidth-mismatch", true);
+            }
+            for m125 in [0x0003u16, 0x8001, 0xffff] {
+                let mut h = Hist::new("C09", region, 20, 0, 4100 + m125 as u64, &[], None);
+                h.abp().send(1, false, &[1]);
+                // ChMaskCntl 0 with the 500 kHz bank switched off first (cntl 4, mask 0)
+                let mut cmds = link_adr_req(15, 15, 0, 4, 1);
+                cmds.extend_from_slice(&link_adr_req(0, 15, m125, 0, 1));
+                h.rx_auth("rx1", 0, 1, false, &cmds, None, &[]).snap();
+                h.send(1, false, &[2]).timeout().snap();
+                h.ev(&format!("dr {}", dr500)).snap();
+                for _ in 0..3 {
+                    h.send(1, false, &[3]).timeout().snap();
+                }
+                let op = h.done();
+                sink.case(&op, &eval(&op), "bandwidth-mismatch", true);
+            }
+        }
         // every TXPower index commanded by LinkADRReq, then uplinks: the power handed to the radio
         // never exceeds the commanded level
         for idx in 0..16u8 {
